@@ -24,7 +24,9 @@ const hs = "caskethttp/httpserver"
 
 func runC01(r *Report, p *Program) {
 	h := H{r, p}
-	c01R1(h)
+	// R1 (writer and reader normalise the key alike) was a pattern rule over splitHostPath; the routing tables
+	// R6 and R7 decide it from behaviour: sites written in any letter case, with port and path, are found by requests
+	// whose host comes in another case, with or without a port.
 	c01R2(h)
 	// R3 (lookup order) and R4 (longest prefix) were pattern rules over matchHost/Match/matchPath; they are
 	// subsumed by the routing table R6, which decides the same clauses from the functions' input/output behaviour
@@ -45,7 +47,7 @@ func isEdgesMapLookup(in ssa.Instruction) (*ssa.Lookup, bool) {
 	return l, readsField(l.X, "edges")
 }
 
-func c01R1(h H) {
+func c01R1Patterns(h H) {
 	r := h.r
 	r.Rule("R1", "key normalisation agrees between writer and reader: vhostTrie.splitHostPath's host result passes strings.ToLower on every data path and has its port removed via net.SplitHostPort; Insert keys the host-level map, and Match calls matchHost, only with that result (or a configured fallback host)", 4)
 	split := h.fn("R1", hs, "(*vhostTrie).splitHostPath")
